@@ -52,3 +52,144 @@ Print Assumptions c07_row_legalizer_no_overflow.
 Print Assumptions c07_invariant_initial.
 Print Assumptions c07_invariant_kept.
 Print Assumptions c07_row_legalizer_history_no_overflow.
+
+(* ====================================================================================================
+   Further integer cores (same pattern: a hand-transcribed list of the C++-typed intermediates over the
+   ideal model, a domain predicate, "every listed value fits its type" for all inputs of the domain, a
+   non-vacuity example at the upper end of the domain and a sanity example showing that a narrower type
+   would overflow).  The type annotations are transcribed by hand from the C++ text: modelled, not
+   verified; the UBSan builds of ./check C07 observe the same on the real code.
+   ==================================================================================================== *)
+Require Import CV.AbacusMachine CV.AbacusMachineProofs.
+Require Import CV.Moves CV.MovesProofs CV.MovesMachine CV.MovesMachineProofs.
+Require Import CV.Hpwl CV.HpwlProofs CV.HpwlMachine CV.HpwlMachineProofs.
+Require Import CV.SubdivMachine CV.SubdivMachineProofs.
+
+(* ---------- Abacus cost arithmetic (abacus_legalizer.cpp placeCell / tryPlace / evaluatePlacement) ---------- *)
+(* [F] the value returned by RowLegalizer::getCost on the magnitude range (what bounds xDist) *)
+Theorem c07_rowleg_cost_bound : forall s w t,
+  MInv s -> 0 < w <= remaining_space s -> -8388608 <= t <= 8388608 ->
+  - (8388608 * 25165824) <= snd (get_cost s w t) <= 8388608 * 25165824 + 8388608 * 33554432.
+Proof. exact get_cost_bound. Qed.
+
+(* [F] one tryPlace(row): rows inside [-2^22, 2^22]^2, row legalizers in their magnitude invariant, a cell of
+   width in (0, 2^23] with its target within [-2^23, 2^23]^2, bestDist any long long *)
+Theorem c07_abacus_try_no_overflow : forall rows legs c i st,
+  Forall row_dom rows -> Forall MInv legs -> cell_dom c ->
+  -9223372036854775808 <= snd st < 9223372036854775808 ->
+  Forall fits (a_try_vals rows legs c i st).
+Proof. exact a_try_no_overflow. Qed.
+
+(* [F] one placeCell: closestRow, both scans, the final push *)
+Theorem c07_abacus_place_no_overflow : forall rows legs c,
+  rows_dom rows -> rows <> [] -> Forall MInv legs -> cell_dom c -> Forall fits (a_place_vals rows legs c).
+Proof. exact a_place_no_overflow. Qed.
+
+(* [F] the whole AbacusLegalizer::run, for every list of rows and cells of the domain *)
+Theorem c07_abacus_no_overflow : forall rows cells,
+  rows_dom rows -> Forall cell_dom cells -> Forall fits (abacus_run_vals rows cells).
+Proof. exact abacus_run_no_overflow. Qed.
+
+Example c07_abacus_nonvacuous :
+  rows_dom ex_rows /\ Forall cell_dom AbacusMachineProofs.ex_cells /\
+  length (abacus_run_vals ex_rows AbacusMachineProofs.ex_cells) = 228%nat /\
+  In (I64, 105553116266496) (abacus_run_vals ex_rows AbacusMachineProofs.ex_cells).
+Proof. exact abacus_nonvacuous. Qed.
+Example c07_abacus_int_would_overflow :
+  rows_dom ex_rows /\ Forall cell_dom AbacusMachineProofs.ex_cells /\
+  exists v, In (I64, v) (abacus_run_vals ex_rows AbacusMachineProofs.ex_cells) /\ ~ fits (I32, v).
+Proof. exact abacus_int_would_overflow. Qed.
+
+(* ---------- DetailedPlacement position arithmetic (detailed_placement.cpp) ---------- *)
+(* MagInv s = MovesProofs.Inv s /\ rows inside [-2^22, 2^22] /\ unplaced cells not wider than 2^23 *)
+Theorem c07_moves_invariant_kept : forall s o, MagInv s -> MagInv (step_mop s o).
+Proof. exact step_mag. Qed.
+
+(* [F] one swap / insert / place (canSwap, positionsOnSwap, canInsert, positionOnInsert, canPlace) *)
+Theorem c07_moves_no_overflow : forall s o, MagInv s -> mop_ok o -> Forall fits (mop_vals s o).
+Proof. exact mop_no_overflow. Qed.
+
+(* [F] every history of operations *)
+Theorem c07_moves_history_no_overflow : forall ops s,
+  MagInv s -> Forall mop_ok ops -> Forall fits (run_mops_vals s ops).
+Proof. exact moves_history_no_overflow. Qed.
+
+Example c07_moves_nonvacuous :
+  MagInv ex_state /\ Forall mop_ok ex_ops /\
+  length (run_mops_vals ex_state ex_ops) = 44%nat /\
+  map (fun r => map (fun c => (p_id c, p_x c)) (dr_cells r)) (d_rows (run_mops ex_state ex_ops))
+    = [[(2%nat, 0)]; [(0%nat, 4194302); (1%nat, 4194303)]].
+Proof. exact moves_nonvacuous. Qed.
+Example c07_moves_narrower_would_overflow :
+  MagInv ex_state /\ Forall mop_ok ex_ops /\
+  In (I32, 8388606) (run_mops_vals ex_state ex_ops) /\ ~ (-4194304 <= 8388606 <= 4194304) /\
+  In (I32, 20971520) (run_mops_vals ex_state ex_ops) /\ ~ (-32768 <= 20971520 < 32768).
+Proof. exact moves_narrower_would_overflow. Qed.
+
+(* ---------- wirelength: Circuit::hpwl and IncrNetModel ---------- *)
+(* [F] Circuit::hpwl: cells within [-2^22, 2^22]^2, oriented pin offsets within [-2^23, 2^23], fewer than 2^31
+   pins and nets *)
+Theorem c07_hpwl_no_overflow : forall cells nets, hpwl_dom cells nets -> Forall fits (hpwl_vals cells nets).
+Proof. exact hpwl_no_overflow. Qed.
+Theorem c07_hpwl_value_bound : forall cells nets, hpwl_dom cells nets ->
+  0 <= hpwl cells nets <= Z.of_nat (length nets) * 50331648.
+Proof. exact hpwl_value_bound. Qed.
+(* the raw-data reading of the pin domain: sizes in [0, 2^22], raw offsets in [-2^22, 2^22] *)
+Theorem c07_hpwl_raw_domain : forall cells p, hpin_raw_dom cells p -> hpin_dom cells p.
+Proof. exact hpin_raw_dom_ok. Qed.
+
+(* [F] IncrNetModel: build, then every history of updateCellPos with positions within [-2^23, 2^23] *)
+Theorem c07_incr_build_no_overflow : forall pos nets,
+  ipos_dom pos -> inets_dom nets -> Forall fits (build_vals pos nets) /\ incr_dom (incr_build pos nets).
+Proof. exact build_no_overflow. Qed.
+Theorem c07_incr_no_overflow : forall ups s,
+  incr_dom s -> Forall (fun u => -8388608 <= snd u <= 8388608) ups ->
+  Forall fits (updates_vals s ups) /\ incr_dom (apply_updates s ups).
+Proof. exact incr_history_no_overflow. Qed.
+
+Example c07_hpwl_nonvacuous :
+  hpwl_dom ex_hcells ex_nets /\ hpwl ex_hcells ex_nets = 43 * 50331648 /\
+  length (hpwl_vals ex_hcells ex_nets) = 1466%nat.
+Proof. exact hpwl_nonvacuous. Qed.
+Example c07_hpwl_int_accumulator_would_overflow :
+  hpwl_dom ex_hcells ex_nets /\ exists v, In (I64, v) (hpwl_vals ex_hcells ex_nets) /\ ~ fits (I32, v).
+Proof. exact hpwl_int_accumulator_would_overflow. Qed.
+Example c07_incr_int_value_would_overflow :
+  ipos_dom ex_ipos /\ inets_dom ex_inets /\
+  exists v, In (I64, v) (build_vals ex_ipos ex_inets) /\ ~ fits (I32, v).
+Proof. exact incr_int_value_would_overflow. Qed.
+(* the non-emptiness of the nets in the domain is necessary (addNet's filter is what provides it) *)
+Example c07_incr_empty_net_would_overflow : exists v, In (I32, v) (build_vals [0] [[]]) /\ ~ fits (I32, v).
+Proof. exact incr_empty_net_would_overflow. Qed.
+
+(* ---------- computeSubdivisions (utils/helpers.hpp) ---------- *)
+(* [F] the text now on /repo main (product in long long): safe on the whole supported range *)
+Theorem c07_subdivisions_no_overflow : forall mn mx n, subdiv_dom mn mx n -> Forall fits (subdiv_vals mn mx n).
+Proof. exact subdiv_no_overflow. Qed.
+(* [R on the tree before the repair] the int product overflowed inside the supported range (F16) *)
+Theorem c07_subdivisions_pre_refuted :
+  exists mn mx n, subdiv_dom mn mx n /\ exists v, In v (subdiv_vals_pre mn mx n) /\ ~ fits v.
+Proof. exact subdiv_pre_refuted. Qed.
+Theorem c07_subdivisions_pre_no_overflow : forall mn mx n,
+  subdiv_dom mn mx n -> n * (mx - mn) < 2147483648 -> Forall fits (subdiv_vals_pre mn mx n).
+Proof. exact subdiv_pre_no_overflow. Qed.
+Example c07_subdivisions_nonvacuous :
+  subdiv_dom (-4194304) 4194304 1048576 /\
+  In (I64, 1048576 * 8388608) (subdiv_vals (-4194304) 4194304 1048576) /\
+  In (I32, 4194304) (subdiv_vals (-4194304) 4194304 1048576).
+Proof. exact subdiv_nonvacuous. Qed.
+
+Print Assumptions c07_rowleg_cost_bound.
+Print Assumptions c07_abacus_try_no_overflow.
+Print Assumptions c07_abacus_place_no_overflow.
+Print Assumptions c07_abacus_no_overflow.
+Print Assumptions c07_moves_invariant_kept.
+Print Assumptions c07_moves_no_overflow.
+Print Assumptions c07_moves_history_no_overflow.
+Print Assumptions c07_hpwl_no_overflow.
+Print Assumptions c07_hpwl_value_bound.
+Print Assumptions c07_incr_build_no_overflow.
+Print Assumptions c07_incr_no_overflow.
+Print Assumptions c07_subdivisions_no_overflow.
+Print Assumptions c07_subdivisions_pre_refuted.
+Print Assumptions c07_subdivisions_pre_no_overflow.
